@@ -35,6 +35,7 @@ type GenOpts struct {
 	MaxStepsProb float64 // Pregel: probability of an explicit compile-time step limit
 	SubModes     []Mode  // modes allowed for nested graphs (nil: all three)
 	TwoBranches  float64 // probability of a second branch on a branching source
+	SubState     float64 // >0: probability that a nested graph has state of its own (default: State)
 	Prefix       string
 }
 
@@ -70,6 +71,9 @@ func Gen(r *mon.Rand, o GenOpts) *GraphSpec {
 				so.Cycles = 0
 			}
 			so.MaxStepsProb = 0
+			if o.SubState > 0 {
+				so.State = o.SubState
+			}
 			ns.Kind = Sub
 			ns.Sub = Gen(r, so)
 			ns.Sub.Name = keys[i]
